@@ -12,6 +12,7 @@ record("ResultsAggregator", file=F, fields={
 })
 
 # names that have a row in the consolidated results file, and those whose row has a non-zero return code
+ghost("universe", "Set[Name]")           # names of the submission's configured jobs (never changes)
 ghost("collected", "Set[Name]")
 ghost("collected_failed", "Set[Name]")
 
@@ -37,7 +38,9 @@ contract("ResultsAggregator.process_results", kind="assumed",
          requires=["not self._is_node"],
          ensures=["forall(i, range(len(result)), result[i].name in ghost.collected "
                   "and (result[i].return_code != 0) == (result[i].name in ghost.collected_failed))",
-                  "subset(old(ghost.collected), ghost.collected) and subset(old(ghost.collected_failed), ghost.collected_failed)"],
+                  "subset(old(ghost.collected), ghost.collected) and subset(old(ghost.collected_failed), ghost.collected_failed)",
+                  # E-res (environment): node files hold rows only for jobs of this submission
+                  "implies(old(subset(ghost.collected, ghost.universe)), subset(ghost.collected, ghost.universe))"],
          raises={"Timeout": {"ensures": ["ghost.collected == old(ghost.collected) and ghost.collected_failed == old(ghost.collected_failed)"]}},
          modifies=["ghost.collected", "ghost.collected_failed"],
          note="moves every per-node results file into the consolidated file and returns the moved rows (verified at file level in C08); "
